@@ -15,7 +15,7 @@ KS(e) == [i \in 1..Len(e.ks) |->
             status |-> e.ks[i].status, primary |-> e.ks[i].primary]]
 Ads(e) == [i \in 1..Len(e.ads) |-> HexToBytes(e.ads[i])]
 
-Judge(e) ==
+JudgeValue(e) ==
   CASE e.ev = "construct" -> <<>>                       \* coverage only (DESIGN section 4)
     [] e.ev = "enc" ->
          LET want == BytesToHex(Encrypt(KS(e), HexToBytes(e.pt), HexToBytes(e.ad)))
@@ -47,6 +47,15 @@ Judge(e) ==
                ELSE <<>>
              ELSE IF got[1] THEN <<"SPEC: SIV-DECRYPT accepts an invalid vector", e.kind>> ELSE <<>>
     [] OTHER -> <<"unknown event", e.ev>>
+
+\* Every byte string handed to the real code lives in a driver buffer with sentinel-filled spare capacity and guard
+\* zones; inIntact records that input bytes, spare capacity and guards were unchanged after the call(s) of the event.
+\* A call that alters its input has not computed the standard value "for the caller's input": judged together with
+\* the value.  (Known-answer events of the reference gate carry no inIntact.)
+Judge(e) ==
+  IF "inIntact" \in DOMAIN e /\ ~e.inIntact
+  THEN <<"the call altered a buffer handed in by the caller (input bytes, spare capacity or guard zone)", "unchanged">>
+  ELSE JudgeValue(e)
 
 Start == IF "VERIF_START" \in DOMAIN IOEnv THEN atoi(IOEnv.VERIF_START) ELSE 1
 
